@@ -14,8 +14,8 @@ from harness.common import Check, chunks, pmap, tmap, NPROC
 
 # grammar -> (height, nodes, max closed trees, max open trees, schema formulas)
 TIERS = {"quick": {"ASSGN2": (7, 22, 120, 160, 25), "ASSGN2S": (7, 20, 50, 80, 12), "XMLISH": (6, 22, 80, 120, 15), "NULLABLE": (6, 14, 40, 60, 10), "CSVISH": (7, 18, 80, 100, 8)},
-         "thorough": {"ASSGN2": (7, 30, 584, 1500, 120), "ASSGN2S": (7, 26, 300, 600, 60), "XMLISH": (7, 30, 400, 1000, 80), "NULLABLE": (8, 20, 60, 200, 40),
-                      "CSVISH": (7, 22, 400, 800, 40), "NUM": (6, 16, 252, 600, 40), "AMBIG": (6, 14, 30, 80, 10)}}
+         "thorough": {"ASSGN2": (7, 30, 300, 500, 60), "ASSGN2S": (7, 26, 150, 250, 30), "XMLISH": (7, 30, 200, 350, 40),
+                      "NULLABLE": (8, 20, 60, 150, 30), "CSVISH": (7, 22, 200, 300, 20), "NUM": (6, 16, 150, 250, 20), "AMBIG": (6, 14, 30, 80, 10)}}
 PID = "C06"
 
 
